@@ -28,6 +28,7 @@ type depthExceeded struct{ msg string }
 type Options struct {
 	NoMemo  bool // build every memoization point WITHOUT combinator.Memoize (differential reference of C03)
 	Interp  parsley.Interpreter
+	Bare    bool          // no wrappers, no monitor: exactly the library's parsers (for free-running concurrent use)
 	Letters map[byte]byte // optional substitution of terminal bytes (e.g. b -> '\n' to exercise line:column)
 }
 
@@ -77,6 +78,9 @@ func Build(g *gram.Grammar, opt Options) *Built {
 	memoize := func(e *gram.Expr, body parsley.Parser) parser.Func {
 		id := memoID
 		memoID++
+		if opt.Bare {
+			return combinator.Memoize(body)
+		}
 		in := b.inner(id, body)
 		var mid parsley.Parser = in
 		if !opt.NoMemo {
@@ -149,6 +153,9 @@ func Build(g *gram.Grammar, opt Options) *Built {
 			p = text.RightTrim(build(e.Kids[0]), text.WsMode(e.Mode))
 		default:
 			panic(fmt.Sprintf("impl: unknown kind %v", e.K))
+		}
+		if opt.Bare {
+			return p
 		}
 		return b.wrap(e, p)
 	}
